@@ -11,6 +11,9 @@ CHECKS = {
  "C19": dict(level="model_checking", technique="CrossHair/z3 bounded symbolic execution of ResourceQuerySegment.to_absolute and Query.to_absolute against a POSIX-normpath reference model",
              text="Bounded exhaustive symbolic exploration: every directory depth <=3 (thorough 4) x every component-class vector of length <=4 (thorough 6) is covered by an exhausted path tree of the real to_absolute code; Query-level frame/idempotence obligations over <=3 segments.",
              design="§4 C19"),
+ "C16": dict(level="fault_enumeration", technique="CrossHair/z3 symbolic fault variables (crash point, torn length) over the real FileCache/FileStore/StoreCache write paths on an in-memory POSIX model (ShimFS)",
+             text="For store / store_metadata / remove of a fresh or existing entry (5 value types, type-changing overwrites included) in FileCache, FileStore and StoreCache (flat, nested) on a FileStore: every crash point 0..14 of the mutating FS operations and torn flush lengths {0..16 (thorough 0..256), len/2, len-1} are solver decisions; after the crash a fresh object must read nothing, the complete old or the complete new value, and a second entry must be unchanged. The path tree is exhausted per (back-end, operation).",
+             design="§4 C16"),
  "C17": dict(level="model_checking", technique="CrossHair/z3 bounded symbolic execution: one-step lemma over the read-only proxy from arbitrary valid pre-states, and a root-containment kernel over FileStore key handling on an in-memory POSIX model (ShimFS) with logged accesses",
              text="Read-only view: from every valid 6-key pre-state (MemoryStore, FileStore/ShimFS) each of 7 mutators with universe keys, free symbolic key text |k|<=3, symbolic payload and 13 write modes is refused with ReadOnlyStoreException and leaves every observer and the FS snapshot unchanged; reads equal the underlying reads. Containment: every key of <=3 (thorough 4) components over {name,'.','..','','__metadata__'} x leading '/' x 15 operations, directly / via mount / via evaluate_resource, touches nothing outside the root.",
              design="§4 C17"),
